@@ -5,6 +5,8 @@ Pipeline (cwd = /verif):
   1. tools/extract.py           regenerate lean/GrmVerif/Extracted.lean from /repo
   2. lake build                 re-check the property's theorems, build the native driver; audit axioms
   3. cargo build                harness against /repo's working tree (path dependencies)
+                                (CONFIG `hooks: True`: with RUSTFLAGS=--cfg grmtools_verif into harness/target/hook,
+                                so that /repo's verification hooks are compiled in for that property only)
   4. vharness Cnn               run the real code on corpus + generated cases -> cases.txt, impl.txt
   5. gvdriver < cases.txt       model answers (M), spec answers (S), validator verdicts (V)
   6. compare, classify, match known findings, write evidence/Cnn.json, exit code
@@ -108,7 +110,10 @@ def harness_build(log, cfg):
     shutil.copyfile(os.path.join(REPO, "Cargo.lock"), os.path.join(HARNESS, "Cargo.lock"))
     env = {}
     if cfg.get("hooks"):
+        # the hooks of /repo (guard `grmtools_verif`) are compiled in; own target directory, so that the
+        # builds of the properties that do not use a hook are not invalidated
         env["RUSTFLAGS"] = "--cfg grmtools_verif"
+        env["CARGO_TARGET_DIR"] = os.path.join(HARNESS, "target", "hook")
     r = sh(["cargo", "build", "--release", "--offline"], cwd=HARNESS, env=env, timeout=3000)
     log.write(r.stdout)
     return r.returncode == 0, r.stdout
@@ -269,7 +274,7 @@ def main():
 
 
 def run_cases(prop, cfg, tier, seed, replay, wd, log, counters, violations, tie_broken, stats):
-    hbin = os.path.join(HARNESS, "target/release/vharness")
+    hbin = os.path.join(HARNESS, "target/hook/release/vharness" if cfg.get("hooks") else "target/release/vharness")
     dbin = os.path.join(LEAN, ".lake/build/bin/gvdriver")
     shards = cfg.get("shards", {}).get(tier, 1) if not replay else 1
     procs = []
